@@ -1,0 +1,108 @@
+//! Verification shim, compiled only with `--cfg orx_concurrent_iter_verif`.
+//!
+//! Drop-in replacements for the `AtomicUsize` / `AtomicBool` used by this crate, exposing exactly the
+//! methods the crate calls. Every access is forwarded, together with a pointer to the value cell, to
+//! `orx_verif_atomic`, a function the verification harness defines; the algorithms are untouched.
+
+use std::cell::UnsafeCell;
+use std::sync::atomic::Ordering;
+
+/// `kind` of an access: load.
+pub const KIND_LOAD: u32 = 0;
+/// `kind` of an access: store.
+pub const KIND_STORE: u32 = 1;
+/// `kind` of an access: fetch_add.
+pub const KIND_FETCH_ADD: u32 = 2;
+
+extern "Rust" {
+    /// Performs the access `kind` with `operand` and memory ordering `ord`
+    /// (0 Relaxed, 1 Release, 2 Acquire, 3 AcqRel, 4 SeqCst) on `cell`; returns the value read
+    /// (the previous value for stores and fetch_add).
+    fn orx_verif_atomic(cell: *mut usize, kind: u32, ord: u32, operand: usize) -> usize;
+}
+
+fn ord_code(ord: Ordering) -> u32 {
+    match ord {
+        Ordering::Relaxed => 0,
+        Ordering::Release => 1,
+        Ordering::Acquire => 2,
+        Ordering::AcqRel => 3,
+        _ => 4,
+    }
+}
+
+/// Stand-in for `std::sync::atomic::AtomicUsize`.
+#[derive(Debug)]
+pub struct AtomicUsize {
+    cell: UnsafeCell<usize>,
+}
+
+unsafe impl Sync for AtomicUsize {}
+unsafe impl Send for AtomicUsize {}
+
+impl AtomicUsize {
+    /// Same as `std::sync::atomic::AtomicUsize::new`.
+    pub fn new(value: usize) -> Self {
+        Self { cell: value.into() }
+    }
+
+    /// Same as `std::sync::atomic::AtomicUsize::fetch_add`.
+    #[inline(always)]
+    pub fn fetch_add(&self, value: usize, ord: Ordering) -> usize {
+        unsafe { orx_verif_atomic(self.cell.get(), KIND_FETCH_ADD, ord_code(ord), value) }
+    }
+
+    /// Same as `std::sync::atomic::AtomicUsize::load`.
+    #[inline(always)]
+    pub fn load(&self, ord: Ordering) -> usize {
+        unsafe { orx_verif_atomic(self.cell.get(), KIND_LOAD, ord_code(ord), 0) }
+    }
+
+    /// Same as `std::sync::atomic::AtomicUsize::store`.
+    #[inline(always)]
+    pub fn store(&self, value: usize, ord: Ordering) {
+        unsafe { orx_verif_atomic(self.cell.get(), KIND_STORE, ord_code(ord), value) };
+    }
+}
+
+impl From<usize> for AtomicUsize {
+    fn from(value: usize) -> Self {
+        Self::new(value)
+    }
+}
+
+/// Stand-in for `std::sync::atomic::AtomicBool`.
+#[derive(Debug)]
+pub struct AtomicBool {
+    cell: UnsafeCell<usize>,
+}
+
+unsafe impl Sync for AtomicBool {}
+unsafe impl Send for AtomicBool {}
+
+impl AtomicBool {
+    /// Same as `std::sync::atomic::AtomicBool::new`.
+    pub fn new(value: bool) -> Self {
+        Self {
+            cell: (value as usize).into(),
+        }
+    }
+
+    /// Same as `std::sync::atomic::AtomicBool::load`.
+    #[inline(always)]
+    pub fn load(&self, ord: Ordering) -> bool {
+        unsafe { orx_verif_atomic(self.cell.get(), KIND_LOAD, ord_code(ord), 0) != 0 }
+    }
+
+    /// Same as `std::sync::atomic::AtomicBool::store`.
+    #[inline(always)]
+    pub fn store(&self, value: bool, ord: Ordering) {
+        unsafe { orx_verif_atomic(self.cell.get(), KIND_STORE, ord_code(ord), value as usize) };
+    }
+}
+
+impl From<bool> for AtomicBool {
+    fn from(value: bool) -> Self {
+        Self::new(value)
+    }
+}
